@@ -210,6 +210,10 @@ func vpC08Causes(fixedRand bool) {
 		vpEndPath("health-script-kept-leader")
 	}
 	vpCover("C08.cause")
+	if cause == vpCauseConflict || cause == vpCausePreemptSeen || cause == vpCauseDeleted {
+		// C03: one heartbeat interval plus two time-outs after the change the instance has stepped down and run OnDemote
+		vpAssert("C03.demote-after-change", s.cb.demotes >= 1)
+	}
 	if cause == vpCauseDeleted {
 		vpAssert("C08.term-ended", s.cb.demotes >= 1) // the vacancy may already have been filled by the instance itself
 	} else {
